@@ -220,6 +220,7 @@ def exec_env_check(bind):
 # ---------------------------------------------------------------- new master ---------------------
 
 NEW_EVENTS = [("parent-exit",), ("parent-killed",), ("parent-exit-subreaper",), ("sig", "USR2"), ("sig", "TERM"), ("sig", "QUIT"), ("exit", 0, 9), ("tick",),
+              (("parent-exit",), ("sig", "TERM")), (("parent-exit",), ("sig", "USR2")), (("parent-exit-subreaper",), ("sig", "QUIT")),
               (("parent-exit",), ("sig", "USR2")), (("parent-exit",), ("sig", "TERM"))]
 # (HUP to the not-yet-promoted new master is outside the property's quantifier and is not explored: see DESIGN.md, observations)
 OLD_PID, NEW_PID = 100, 200
@@ -271,6 +272,16 @@ def new_judge(params, k, o, label=None):
                 bad.append(("new:GUNICORN_PID-kept" + at, "GUNICORN_PID still in the environment after promotion"))
         if any(t[0] == "listener-close" for t in k.trace):
             bad.append(("new:listener-closed" + at, "the new master closed a listener while running"))
+        # USR2 once the parent is gone starts a further upgrade
+        gone = False
+        asked = False
+        for t in k.trace:
+            if t[0] == "event" and t[1] in ("parent-exit", "parent-killed", "parent-exit-subreaper"):
+                gone = True
+            elif t[0] == "event" and t[1] == "sig" and t[2] == "USR2" and gone:
+                asked = True
+        if asked and not m2_forks and label is None:
+            bad.append(("new:upgrade-refused-although-parent-gone", "USR2 arrived after the old master's exit; no new master was started"))
     elif o.end == "exit":
         unlinked = [t for t in k.trace if t[0] == "unlink-socket"]
         # was the parent alive when the sockets were closed?
@@ -285,8 +296,14 @@ def new_judge(params, k, o, label=None):
         if params["bind"] == "unix":
             if parent_alive_at_stop and unlinked:
                 bad.append(("new:unlinked-socket-in-use" + at, "the new master unlinked the unix socket path while the old master was alive"))
-            if promoted and not unlinked and o.code == 0 and not child_master_alive and not child_died:
-                bad.append(("new:socket-path-left" + at, "promoted master stopped without unlinking its unix socket"))
+            gone_before_stop = False
+            for t in k.trace:
+                if t[0] == "event" and t[1] in ("parent-exit", "parent-killed", "parent-exit-subreaper"):
+                    gone_before_stop = True
+                if t[0] == "log" and t[2].startswith("Handling signal: ") and t[2].split(": ")[1] in ("term", "quit", "int"):
+                    break
+            if (promoted or (gone_before_stop and label is None)) and not unlinked and o.code == 0 and not child_master_alive and not child_died:
+                bad.append(("new:socket-path-left" + at, "the master whose parent had gone (it is the only master left) stopped without unlinking its unix socket"))
         if (PIDFILE + ".2") in snap:
             bad.append(("new:dot2-pidfile-left" + at, "%s.2 left behind: %r" % (PIDFILE, snap[PIDFILE + ".2"])))
         if promoted and snap.get(PIDFILE) == b"%d\n" % NEW_PID:
